@@ -121,7 +121,7 @@ def run(ctx):
             try:
                 got = np.asarray(law.get_av(qv * qunit), float)
             except Exception as exc:
-                ctx.violation('get_av:raised', 'get_av raised on a length quantity: %r' % (exc,), dict(wit, query_unit=qn))
+                ctx.raised(exc, 'get_av:raised', 'get_av raised on a length quantity: %r' % (exc,), dict(wit, query_unit=qn))
                 continue
             q_um = qv * qfac
             ref = O.ext_pattern(tw_um, chi_native, q_um)
@@ -252,7 +252,7 @@ def run(ctx):
             lt = Extinction.from_table(law.to_table())
             ctx.event('roundtrip:table')
         except Exception as exc:
-            ctx.violation('roundtrip:raised', 'pickle/table round trip raised: %r' % (exc,), wit)
+            ctx.raised(exc, 'roundtrip:raised', 'pickle/table round trip raised: %r' % (exc,), wit)
             lp = lt = None
         for label, l2 in (('pickle', lp), ('table', lt)):
             if l2 is None:
@@ -277,7 +277,7 @@ def run(ctx):
             if not np.all(np.abs(gf - base) <= rel_tol(tw_um, chi_native, qs_um[:12]) * np.abs(base)):
                 ctx.violation('roundtrip:file-changes-law', 'law read from a text file differs', dict(wit, columns=(cw, cc), ncol=ncol, before=base, after=gf))
         except Exception as exc:
-            ctx.violation('roundtrip:file-raised', 'from_file raised: %r' % (exc,), dict(wit, columns=(cw, cc), ncol=ncol))
+            ctx.raised(exc, 'roundtrip:file-raised', 'from_file raised: %r' % (exc,), dict(wit, columns=(cw, cc), ncol=ncol))
         os.remove(path)
         if it % 5 == 0:
             # default arguments of the reader: columns (0,1), micron, cm^2/g (the table is written out in micron for this)
